@@ -40,7 +40,14 @@ func cmdScan(args []string) {
 	sort.Strings(names)
 	tot, totFail, clean := 0, 0, 0
 	for _, n := range names {
-		r := eng.verifyFunc(n, true)
+		r := func() (r *FuncResult) {
+			defer func() {
+				if x := recover(); x != nil {
+					r = &FuncResult{Func: n, Unsupported: fmt.Sprint("engine error: ", x)}
+				}
+			}()
+			return eng.verifyFunc(n, true)
+		}()
 		if r.Unsupported != "" {
 			fmt.Printf("UNSUPPORTED %-70s %s\n", n, r.Unsupported)
 			continue
